@@ -922,6 +922,16 @@ package keyvalue
 //@ spec memIsDir(fs *FS, name string) := memRec(fs, name).mode & hackpadfs.ModeDir != 0
 //@ spec memHasChildOf(fs *FS, name string) := exists(k, dom(ms(fs).records), mem.isChildKey(k, name))
 
+// the serial world (a plain Store): what the record returned by Get says about itself
+//@ spec serRec(fs *FS, name string) := storeGetRec(fsStore(fs), name)
+// (a record's answers are functions of the world it is asked in: here the world right after the Get)
+//@ spec rawModeW(w int, rec FileRecord) := ite(isBaseRec(rec), rec.(*BaseFileRecord).mode, retW("keyvalue.(FileRecord).Mode", 0, w, rec))
+//@ spec serMode(fs *FS, name string) := rawModeW(storeGetW(fsStore(fs), name), serRec(fs, name))
+//@ spec serIsDir(fs *FS, name string) := !isMemRec(serRec(fs, name)) && serMode(fs, name) & hackpadfs.ModeDir != 0
+//@ spec serIsFile(fs *FS, name string) := !isMemRec(serRec(fs, name)) && serMode(fs, name) & hackpadfs.ModeDir == 0
+//@ spec serListErr(fs *FS, name string) := retW("keyvalue.(FileRecord).ReadDirNames", 1, storeGetW(fsStore(fs), name), serRec(fs, name))
+//@ spec serList(fs *FS, name string) := retW("keyvalue.(FileRecord).ReadDirNames", 0, storeGetW(fsStore(fs), name), serRec(fs, name))
+
 //@ func (fs *FS) Remove(name string) (err error)
 //@   props C01 C04 C05 C14 C03
 //@   requires fsOK(fs)
@@ -937,6 +947,12 @@ package keyvalue
 //@                     err == nil && !kvHas(fs, name) && memSameExcept(fs, name))
 //@   ensures "mem-world" implies(isMem(fs), world() == old(world()))
 //@   ensures "store-error" [C14] implies(VP(name) && isSerial(fs) && old(storeGetErr(fsStore(fs), name)) != nil, err != nil)
+//@   ensures "list-error" [C14] implies(VP(name) && name != "." && isSerial(fs) && old(storeGetErr(fsStore(fs), name)) == nil && old(serIsDir(fs, name)) && old(serListErr(fs, name)) != nil,
+//@                     err != nil && world() == old(storeGetW(fsStore(fs), name)))
+//@   ensures "nonempty-serial" [C14 C03] implies(VP(name) && name != "." && isSerial(fs) && old(storeGetErr(fsStore(fs), name)) == nil && old(serIsDir(fs, name)) && old(serListErr(fs, name)) == nil && len(old(serList(fs, name))) > 0,
+//@                     errIs(err, hackpadfs.ErrNotEmpty) && world() == old(storeGetW(fsStore(fs), name)))
+//@   ensures "set-error" [C14] implies(VP(name) && name != "." && isSerial(fs) && old(storeGetErr(fsStore(fs), name)) == nil &&
+//@                     (old(serIsFile(fs, name)) || (old(serIsDir(fs, name)) && old(serListErr(fs, name)) == nil && len(old(serList(fs, name))) == 0)), iff(err == nil, old(setAfterGetErr(fs, name, nil)) == nil))
 //@   ensures "inv" fsInv(fs)
 //@   ensures "tree" [C03] implies(isMem(fs) && old(treeInv(fs)), treeInv(fs))
 //@   nopanic
@@ -1113,6 +1129,7 @@ package keyvalue
 //@                      forall(i, 0, len(paths), VP(paths[i]) && paths[i] != ".") && implies(len(paths) > 0, paths[0] == name) &&
 //@                      forall(i, 0, len(paths) - 1, paths[i+1] == pdir(paths[i])) &&
 //@                      currentPath == ite(len(paths) == 0, name, pdir(paths[len(paths) - 1])) && fsMem(fs)
+//@   loop 1 decreases len(name) + 2 - len(paths)
 //@   loop 2 invariant "prefix" rangeindex >= -1 && rangeindex < len(paths) && len(missingDirs) == rangeindex + 1 && ((ref(missingDirs) == 0 && cap(missingDirs) == 0 && len(missingDirs) == 0) || fresh(missingDirs)) &&
 //@                      forall(j, 0, rangeindex + 1, missingDirs[j] == paths[j] && !kvHas(fs, paths[j])) &&
 //@                      len(paths) >= 1 && len(paths) <= len(name) + 2 && paths[len(paths) - 1] == "." && paths[0] == ite(len(paths) == 1, ".", name) &&
@@ -1142,6 +1159,7 @@ package keyvalue
 //@                      forall(j, i + 1, len(missingDirs), kvHas(fs, missingDirs[j]) && memIsDir(fs, missingDirs[j])) &&
 //@                      implies(len(missingDirs) > 0 && missingDirs[len(missingDirs) - 1] != ".", kvHas(fs, pdir(missingDirs[len(missingDirs) - 1])) && memIsDir(fs, pdir(missingDirs[len(missingDirs) - 1]))) &&
 //@                      oldKept(fs) && newAreDirs(fs, perm) && implies(old(treeInv(fs)), treeInv(fs))
+//@   loop 1 decreases i + 1
 //@   ensures "gate" [C04] implies(!VP(path), errIs(err, hackpadfs.ErrInvalid) && memSame(fs))
 //@   ensures "typed" [C05] implies(err != nil, isPathError(err))
 //@   ensures "not-dir" [C01 C05] implies(VP(path) && err != nil, errIs(err, hackpadfs.ErrNotDir) && old(kvHas(fs, pathOf(err))) && !old(memIsDir(fs, pathOf(err))) && memSame(fs))
@@ -1163,7 +1181,7 @@ package keyvalue
 //@ spec linkErr(err error, oldname string, newname string) := isLinkError(err) && oldOf(err) == oldname && newOf(err) == newname
 
 //@ func (fs *FS) Rename(oldname string, newname string) (err error)
-//@   props C01 C03 C04 C05
+//@   props C01 C03 C04 C05 C14
 //@   requires fsMem(fs)
 //@   use dirValid(newname)
 //@   use childDirAll(oldname)
@@ -1171,7 +1189,13 @@ package keyvalue
 //@   dispatch FileRecord *fileData *runOnceFileRecord mem.fileRecord
 //@   dispatch Transaction *mem.transaction
 //@   modifies world(), mapOf(ms(fs).records), held(ms(fs).mu)
+//@   propagates [C14 C01] Rename
+//@   propagates [C14 C01] setFile
+//@   propagates [C14 C01] setFileTxn
+//@   propagates [C14] ReadDirNames
+//@   propagates [C14] Data
 //@   loop 1 modifies mapOf(ms(fs).records), held(ms(fs).mu), world()
+//@   loop 1 invariant "children-so-far-moved" !failed("Rename") && !failed("setFile") && !failed("setFileTxn") && !failed("ReadDirNames") && !failed("Data")
 //@   loop 1 invariant "inv" fsMem(fs) && VP(oldname) && VP(newname) && rangeindex >= -1 && rangeindex < max(len(files), 1) && (len(files) > 0 || rangeindex == -1) && world() == old(world())
 //@   ensures "gate" [C04 C05] implies(!VP(oldname) || !VP(newname), linkErr(err, oldname, newname) && errIs(err, hackpadfs.ErrInvalid) && memSame(fs) && world() == old(world()))
 //@   ensures "root" [C03] implies(rnValid(oldname, newname) && oldname == "." && newname != ".", linkErr(err, oldname, newname) && memSame(fs))
